@@ -23,8 +23,8 @@ from ..content import Pool, gen_content
 from ..main import Report
 
 CHUNK_LIMIT = 524288
-QUICK = {'A': 40, 'B': 24, 'C': 6, 'I': 110}
-THOROUGH = {'A': 500, 'B': 300, 'C': 40, 'I': 400}
+QUICK = {'A': 40, 'B': 24, 'C': 6, 'I': 110, 'W': 12}
+THOROUGH = {'A': 500, 'B': 300, 'C': 40, 'I': 400, 'W': 150}
 
 
 def fds_under(folder: str):
@@ -305,9 +305,64 @@ def case_I(idx: int):
     return res
 
 
+def case_W(idx: int):
+    """handles used as context managers (`with Container(...) as c:`), incl. the handle that initialises the container, and
+    handles that are simply dropped: after the block / after collection no descriptor inside the folder is left"""
+    import gc  # pylint: disable=import-outside-toplevel
+
+    dos = common.import_repo()
+    rng = common.rng_for('C18', 'W', idx)
+    res = {'kind': 'W', 'idx': idx, 'failures': [], 'breaks': [], 'stats': {'with_blocks': 0}, 'sample': None}
+    scratch = common.mkscratch('C18')
+    try:
+        folder = os.path.join(scratch, 'c')
+        rounds = rng.randint(2, 4)
+        for rnd in range(rounds):
+            with dos.Container(folder) as c:
+                if rnd == 0:
+                    c.init_container(pack_size_target=rng.choice([4 * 1024 ** 3, 200]), loose_prefix_len=rng.choice([0, 2]))
+                for _ in range(rng.randint(1, 6)):
+                    x = rng.random()
+                    if x < 0.35:
+                        c.add_object(rng.randbytes(rng.randint(0, 300)))
+                    elif x < 0.55:
+                        c.add_objects_to_pack([rng.randbytes(rng.randint(1, 200)) for _ in range(rng.randint(1, 3))], compress=rng.random() < 0.5)
+                    elif x < 0.7:
+                        c.pack_all_loose()
+                    elif x < 0.8:
+                        c.clean_storage()
+                    elif x < 0.9:
+                        list(c.list_all_objects())
+                    else:
+                        c.count_objects()
+                        c.get_total_size()
+            res['stats']['with_blocks'] += 1
+            data, sql = fds_under(folder)
+            if data or sql:
+                res['failures'].append({'signature': 'fd-after-with', 'text': f'after leaving `with Container(...)` (block {rnd}{", which initialised the container" if rnd == 0 else ""}) '
+                                                                              f'the process still holds {(data + sql)[:4]} open inside the container folder',
+                                        'replay': {'kind': 'W', 'idx': idx, 'seed': common.seed()}})
+                break
+        # a handle that is dropped without close()
+        c2 = dos.Container(folder)
+        c2.count_objects()
+        list(c2.list_all_objects())
+        del c2
+        gc.collect()
+        data, sql = fds_under(folder)
+        if data or sql:
+            res['failures'].append({'signature': 'fd-after-del', 'text': f'after dropping a handle (del + gc) the process still holds {(data + sql)[:4]} open inside the container folder',
+                                    'replay': {'kind': 'W', 'idx': idx, 'seed': common.seed()}})
+    finally:
+        common.rmscratch(scratch)
+    return res
+
+
 def _work(job):
     kind, idx, arg = job
     try:
+        if kind == 'W':
+            return case_W(idx)
         if kind == 'I':
             return case_I(idx)
         if kind == 'A':
@@ -324,7 +379,7 @@ def run(tier: str) -> Report:
     plan = QUICK if tier == 'quick' else THOROUGH
     big = 12 if tier == 'quick' else 40
     jobs = ([('C', i, big) for i in range(plan['C'])] + [('A', i, 0) for i in range(plan['A'])] + [('B', i, 0) for i in range(plan['B'])]
-            + [('I', i, 0) for i in range(plan['I'])])
+            + [('I', i, 0) for i in range(plan['I'])] + [('W', i, 0) for i in range(plan['W'])])
     ctx = mp.get_context('fork')
     with ctx.Pool(processes=min(12, os.cpu_count() or 4)) as pool:
         results = pool.map(_work, jobs, chunksize=1)
@@ -355,7 +410,7 @@ def replay(path: str) -> int:
     os.environ['VERIF_SEED'] = str(rp.get('seed', 0))
     common.build_lean()
     kind = rp.get('kind')
-    r = case_A(rp['idx']) if kind == 'A' else case_B(rp['idx']) if kind == 'B' else case_C(rp['idx'], 12) if kind == 'C' else case_I(rp['idx']) if kind == 'I' else None
+    r = case_A(rp['idx']) if kind == 'A' else case_B(rp['idx']) if kind == 'B' else case_C(rp['idx'], 12) if kind == 'C' else case_I(rp['idx']) if kind == 'I' else case_W(rp['idx']) if kind == 'W' else None
     if r is None:
         print('nothing to replay')
         return 2
